@@ -51,11 +51,11 @@ func verifMutate(m *Bitmap, k int) {
 }
 
 func VerifH03Isolation() {
-	kind := verifChoice("kind", 2)
+	kind := 1 - verifChoice("kind", verifBound("kinds", 2)) // tree-backed first
 	typ := verifChoice("typ", 3)
 	verifNearBase = 0
 	a, _ := verifMkOne("a", kind, 1, typ)
-	b, _ := verifMkOne("b", 0, 1, verifChoice("btyp", 2))
+	b, _ := verifMkOne("b", 0, 1, verifChoice("btyp", verifBound("btyps", 2)))
 	verifNearBase = -1
 	dk := verifChoice("derive", verifBound("derivations", 8))
 	d := verifDerive(a, b, dk)
